@@ -127,11 +127,13 @@ def main():
                 return cache[k]
 
             # ---------------------------------------------------------------- hypersingular
-            optsA = S.random_opts(rng, mesh, "P", 1, variant=oi)
-            optsB = S.random_opts(rng, mesh, "P", 1, variant=2 * oi + 1)
+            optsA = S.draw_opts(rng, mesh, topo, "P", 1, variant=oi)[0] or {}
+            optsB = S.draw_opts(rng, mesh, topo, "P", 1, variant=2 * oi + 1)[0] or {}
             if sw != sw_test:
                 # make sure the differing flag matters: the test space then lives on the whole grid
                 optsB = {k_: v_ for k_, v_ in optsB.items() if k_ not in ("segments", "support_elements")}
+                if oi % 4 == 1:
+                    optsA = {k_: v_ for k_, v_ in optsA.items() if k_ not in ("segments", "support_elements")}
             for o, s_ in ((optsA, sw), (optsB, sw_test)):
                 o.pop("swapped_normals", None)
                 if s_:
@@ -190,8 +192,8 @@ def main():
                     ctx.violation(mm, "%s: %s" % (cid, msg), cid)
 
             # ---------------------------------------------------------------- Maxwell electric field
-            optsR = S.random_opts(rng, mesh, "RWG", 0, variant=oi)
-            optsS = dict(optsR) if oi % 2 == 0 else S.random_opts(rng, mesh, "SNC", 0, variant=3 * oi + 1)
+            optsR = S.draw_opts(rng, mesh, topo, "RWG", 0, variant=oi)[0] or {}
+            optsS = dict(optsR) if oi % 2 == 0 else (S.draw_opts(rng, mesh, topo, "SNC", 0, variant=3 * oi + 1)[0] or {})
             for o in (optsR, optsS):
                 o.pop("swapped_normals", None)
                 if sw:
